@@ -7,6 +7,7 @@ from .clock import T0
 from .util import stable_hash
 
 INF = float("inf")
+T0 = T0  # re-exported for property modules
 
 
 def rng_for(seed, profile, index):
@@ -25,12 +26,18 @@ def gen_problem(rng, family=None, nmax=6, mmax=3, fixed_prob=0.3, allow_dom=True
     if family == "zero-cons":
         m = 0
         family = "qp"
+    if family == "saddle" and rng.random() < 0.6:
+        m = 0
     M = _r(rng, n, n)
     Q = M @ M.T + 0.5 * np.eye(n)
     if family == "unbounded":
         Q = np.zeros((n, n))
     if family == "degenerate":
         Q = M[:, :1] @ M[:, :1].T
+    if family == "saddle":
+        # non-convex quadratic whose negative curvatures are exact binary fractions: H + lambda*I is
+        # *exactly* singular for lambda in {1, 1/2, 2, 1/4, ...}, the values the step-size control visits
+        Q = np.diag(rng.choice([-2.0, -1.0, -0.5, -0.25, 0.5, 1.0, 2.0], size=n, p=[0.1, 0.3, 0.15, 0.1, 0.1, 0.15, 0.1]))
     Q = np.round(Q, 6)
     q = _r(rng, n, scale=2.0)
     quart = family in ("nlp", "infeasible", "domain")
@@ -53,6 +60,13 @@ def gen_problem(rng, family=None, nmax=6, mmax=3, fixed_prob=0.3, allow_dom=True
             xu[j] = xl[j] + abs(_r(rng)) + 0.1
         elif t == 4 and rng.random() < fixed_prob:
             xl[j] = xu[j] = _r(rng)
+    if family == "saddle":
+        # boxed, so that the problem is bounded
+        for j in range(n):
+            if not np.isfinite(xl[j]):
+                xl[j] = float(np.round(min(xu[j] if np.isfinite(xu[j]) else 0.0, 0.0) - 1.0 - abs(rng.normal()), 3))
+            if not np.isfinite(xu[j]):
+                xu[j] = float(np.round(max(xl[j], 0.0) + 1.0 + abs(rng.normal()), 3))
     xl = np.round(xl, 3)
     xu = np.round(xu, 3)
     xfeas = np.clip(_r(rng, n), xl, xu)
